@@ -49,7 +49,13 @@ func isSubseq(ms, txids [][]byte) bool {
 
 // C20 on a valid build: accepted with the block's root and exactly the matched ids in block
 // order; every single corruption is rejected or yields a different root.
-func checkC20Mk(t *Toks) string {
+func checkC20Mk(t *Toks) string  { return checkMk(t, false) }
+
+// the same on the mkc family, where the statement is taken literally for flag bits and counts too
+// (those clauses do not hold of the BIP-37 format itself: known findings)
+func checkC20Mkc(t *Toks) string { return checkMk(t, true) }
+
+func checkMk(t *Toks, literal bool) string {
 	header, txids, matched := readMk(t)
 	n := len(txids)
 	root := mkRootLevels(txids)
@@ -76,7 +82,16 @@ func checkC20Mk(t *Toks) string {
 		r := runProof(mkBlob(header, cnt, hashes, fl))
 		return r.class == "ok" && bytes.Equal(r.root, root), r
 	}
-	soft := "" // failures of the literal statement that are inherent in the format (known findings), reported last
+	var softs []string
+	addSoft := func(x string) {
+		for _, y := range softs {
+			if y == x {
+				return
+			}
+		}
+		softs = append(softs, x)
+	}
+	// failures of the literal statement that are inherent in the format (known findings), reported last
 	// every hash, every byte (every bit for small blocks)
 	for i := range p.hashes {
 		for j := 0; j < 32; j++ {
@@ -107,11 +122,9 @@ func checkC20Mk(t *Toks) string {
 		}
 		switch {
 		case i >= len(p.bits):
-			soft = fail("corrupt-flag-same-root", "padding")
+			addSoft(fail("corrupt-flag-same-root", "padding"))
 		case p.bitH[i] == 0:
-			if soft == "" {
-				soft = fail("corrupt-flag-same-root", "leaf")
-			}
+			addSoft(fail("corrupt-flag-same-root", "leaf"))
 		default:
 			return fail("corrupt-flag-same-root", fmt.Sprintf("inner/bit=%d/height=%d", i, p.bitH[i]))
 		}
@@ -131,9 +144,7 @@ func checkC20Mk(t *Toks) string {
 		if !isSubseq(r.matches, txids) {
 			return fail("unsound-match", fmt.Sprintf("count=%d", c))
 		}
-		if soft == "" {
-			soft = fail("corrupt-count-same-root", "inrange")
-		}
+		addSoft(fail("corrupt-count-same-root", "inrange"))
 	}
 	// surplus hash, surplus flag byte
 	for _, extra := range [][]byte{p.hashes[len(p.hashes)-1], bytes.Repeat([]byte{0x5a}, 32), root} {
@@ -153,8 +164,8 @@ func checkC20Mk(t *Toks) string {
 	if same, _ := sameRoot(p.hashes, flags[:len(flags)-1], uint32(n)); same {
 		return fail("missing-flags-same-root", "")
 	}
-	if soft != "" {
-		return soft
+	if literal && len(softs) > 0 {
+		return softs[len(t.line)%len(softs)] // rotate so that every class shows up in a run
 	}
 	return "OK"
 }
@@ -215,10 +226,10 @@ func reverse(b []byte) []byte {
 // carries the six-element witness and its outputs sum to the pegged amount.
 func checkC20Claim(t *Toks) string {
 	c := readClaim(t)
-	// is the proof a proof of exactly this transaction? (decided with the independent walker below)
-	pr := runProof(c.proof)
-	proves := c.haveView && pr.class == "ok" && bytes.Equal(pr.root, c.proof[36:68]) &&
-		len(pr.matches) == 1 && bytes.Equal(pr.matches[0], c.txid)
+	// is the proof a proof of exactly this transaction? (decided with the independent walker ownExtract)
+	oroot, omatches, ook := ownExtract(c.proof)
+	proves := c.haveView && ook && bytes.Equal(oroot, c.proof[36:68]) &&
+		len(omatches) == 1 && bytes.Equal(omatches[0], c.txid)
 	pays, vout, amount := false, 0, uint64(0)
 	for i := range c.outVals {
 		if bytes.Equal(c.outScripts[i], c.mainScript) {
@@ -233,8 +244,6 @@ func checkC20Claim(t *Toks) string {
 	}
 	rates := []float64{c.rate(), 0.1, 1.1, 0.011, 253.7}
 	for ri, rate := range rates {
-		cc := *c
-		_ = cc
 		tx, err := pegin_Claim(c, rate)
 		if err != nil {
 			if proves && pays {
@@ -243,7 +252,7 @@ func checkC20Claim(t *Toks) string {
 			continue
 		}
 		if !proves {
-			return fail("claim-accepts-bad-proof", pr.class)
+			return fail("claim-accepts-bad-proof", "")
 		}
 		if !pays {
 			return fail("claim-without-pegin-output", "")
@@ -264,7 +273,7 @@ func checkC20Claim(t *Toks) string {
 		}
 		back, err := transaction.NewTxFromBuffer(bytes.NewBuffer(ser))
 		if err != nil || len(back.Inputs) != 1 || !back.Inputs[0].IsPegin || back.Inputs[0].Index != in.Index ||
-			binary.LittleEndian.Uint32(ser[5+32:5+36])&0x40000000 == 0 {
+			binary.LittleEndian.Uint32(ser[6+32:6+36])&0x40000000 == 0 {
 			return fail("claim-pegin-flag", "wire")
 		}
 		var le [8]byte
@@ -314,6 +323,7 @@ func checkC20Claim(t *Toks) string {
 
 func init() {
 	checks["C20/mk"] = checkC20Mk
+	checks["C20/mkc"] = checkC20Mkc
 	checks["C20/proof"] = checkC20Proof
 	checks["C20/claim"] = checkC20Claim
 }
